@@ -328,6 +328,48 @@ def build(M):
                 work.append((s2, i + 1, v))
         return out
 
+    def c_try_fold(eng, st, fr, t, name, rname, args):
+        """Iterator::try_fold(init, f) with f returning Option / Result: stops at the first None / Err"""
+        items = items_of(eng, st, args[0])
+        if items is None:
+            return NotImplemented
+        g = [str(x) for x in (t.get("callee", {}).get("gargs") or ())]
+        rty = next((x for x in reversed(g) if x.startswith(("core::option::Option<", "core::result::Result<"))), None)
+        if rty is None:
+            return NotImplemented
+        wrap = mk_option if rty.startswith("core::option") else fdai.mk_ok
+        out = []
+        work = [(st, 0, args[1])]
+        guard = 0
+        while work:
+            s, i, acc = work.pop()
+            guard += 1
+            if guard > 20000:
+                raise fdai.TooManyPaths("try_fold")
+            if s.outcome is not None:
+                out.append((s, TOP))
+                continue
+            if i >= len(items):
+                set_consumed(eng, s, t, len(items))
+                out.append((s, wrap(acc)))
+                continue
+            f2 = s.frames[-1]
+            clo = eng.operand(s, f2, t["args"][2])
+            for s2, v in eng.call_closure(s, f2, clo, [acc, items[i]], t):
+                if s2.outcome is not None:
+                    out.append((s2, TOP))
+                    continue
+                v = eng.resolve(s2, v)
+                if not (isinstance(v, EnumV) and v.name in ("Some", "Ok", "None", "Err")):
+                    out.append((s2, s2.fresh(("try-fold-undecided",))))
+                    continue
+                if v.name in ("Some", "Ok"):
+                    work.append((s2, i + 1, v.fields.get(0, TOP)))
+                else:
+                    set_consumed(eng, s2, t, i + 1)
+                    out.append((s2, v))
+        return out
+
     def c_sum(eng, st, fr, t, name, rname, args):
         items = items_of(eng, st, args[0])
         if items is None:
@@ -356,7 +398,7 @@ def build(M):
         I + "skip": adaptor(a_skip), I + "take": adaptor(a_take), I + "copied": adaptor(a_copied), I + "cloned": adaptor(a_copied),
         I + "peekable_items": adaptor(a_identity), I + "fuse": adaptor(a_identity), I + "by_ref": None,
         I + "map": m_map, I + "filter": m_filter("filter"), I + "skip_while": m_filter("skip_while"),
-        I + "fold": c_fold, I + "sum": c_sum, I + "last": c_last,
+        I + "fold": c_fold, I + "try_fold": c_try_fold, I + "sum": c_sum, I + "last": c_last,
     }
     table = {k: v for k, v in table.items() if v is not None}
     consumers = {I + "next": c_next, I + "nth": c_nth, I + "count": c_count, I + "all": search("all"), I + "any": search("any"),
